@@ -82,10 +82,10 @@ def run(ctx):
         nonces = hooked(arg(2))
         sinks = ok_sinks(f) | call_sinks(f, lambda ci, t: ci and ci.get("name") == "compute_signature_share")
         own_get = call("get", fld(sp, "signing_commitments"), fld(kp, "identifier"))
-        mech = [("get(own).ok_or", succ_fact(lambda t: t[0] == "ok_or" and own_get(t[1]))),
+        mech = [("get(own).ok_or", succ_fact(own_get)),
                 ("binding_factor_list.get(own)", succ_fact(
-                    lambda t: t[0] == "ok_or" and is_call(t[1], name="get") and fld(kp, "identifier")(t[1][2][1])
-                    and mentions(t[1][2][0], call("compute_binding_factor_list"))))]
+                    lambda t: is_call(t, name="get") and fld(kp, "identifier")(t[2][1])
+                    and mentions(t[2][0], call("compute_binding_factor_list"))))]
         if lagrange_found_flag(ctx):
             mech.append(("lagrange-x_i-found", succ_fact(lagrange_of(fld(kp, "identifier"), sp))))
         refusal(ctx, f, "SEP", "G02:own-commitment-missing", mech, sinks, require_fail_err=False)
